@@ -278,6 +278,29 @@ MotionB == LET f == Frames(sph)[frame] IN
                          [op |-> "qtable", h |-> 1, h2 |-> 2, dim |-> 3, sph |-> sph, props |-> MotionProps, pos2 |-> <<4, 5, 6>>,
                           twinrel |-> Dec(1, -6), twinabs |-> Dec(1, -3), jitter |-> Dec(1, -7), rows |-> MRows(f)] >>]
 
+(* C02 / C03: only the features that contain the point matter.  Every feature gets a tag string of its own; the worlds made of one
+   feature each tell which features contain a point (their tag there is not -1) - membership is the feature's own business -; the world
+   made of exactly those features, in file order, must answer bit for bit like the full world (deleting any set of non-containing
+   features changes nothing), the full world's tag is that of the last containing feature, and where no feature contains the point the
+   full world answers like the world without features (the background).  Handles: 1 = full document, 2 + m = the sub-document of the
+   features whose bit is set in m < 2^n - 1. *)
+Pow2(k) == IF k = 0 THEN 1 ELSE IF k = 1 THEN 2 ELSE IF k = 2 THEN 4 ELSE IF k = 3 THEN 8 ELSE 16
+Bit(m, k) == (m \div Pow2(k - 1)) % 2 = 1
+TagOf(k) == "f" \o ToString(k)
+DocM(m) == LET idx == SelectSeq([k \in 1..Len(feats) |-> k], LAMBDA k : Bit(m, k)) IN
+           World(IF sph THEN Spherical(DepthMethods[dm]) ELSE Cartesian,
+                 [i \in 1..Len(idx) |-> ("tag" :> TagOf(idx[i])) @@ Render(IdF(sph), feats[idx[i]], idx[i])]) @@ Globals[glob]
+           @@ ("cross section" :> <<XYg(IdF(sph), Sections[sec][1]), XYg(IdF(sph), SecEnd(Sections[sec]))>>)
+PaintProps == <<PT, PC(0), PC(1), PG(0, 2), PC(3), PV, PC(4), PC(5), PG(2, 1), PC(2)>>
+PaintB == LET n == Len(feats)  full == Pow2(n) - 1
+              hof(m) == IF m = full THEN 1 ELSE 2 + m IN
+          [id |-> Id("paint"), labels |-> Labels("paint"),
+           steps |-> << [op |-> "create", h |-> 1, wb |-> DocM(full), expect |-> "any"] >>
+                     \o [m \in 1..full |-> [op |-> "create", h |-> 1 + m, wb |-> DocM(m - 1), expect |-> "any"]]
+                     \o << [op |-> "qtable", h |-> 1, dim |-> 3, sph |-> sph, props |-> PaintProps, may_throw |-> TRUE,
+                            subsets |-> [singles |-> [k \in 1..n |-> hof(Pow2(k - 1))], names |-> [k \in 1..n |-> TagOf(k)],
+                                         worlds |-> [m \in 1..full |-> <<m - 1, 1 + m>>]], rows |-> Rows] >>]
+
 (* C14: the document as a job for real threads (harness/threads.cc): one probe per lattice position, the depth cycling *)
 ThreadJob == LET n == Len(Rows) \div Len(DepthsM) IN
              [wb |-> Doc, gen |-> Id("threads"),
@@ -316,7 +339,7 @@ SectionMovedB == LET f == Frames(sph)[frame] IN
                                [op |-> "qtable", h |-> 1, dim |-> 3, sph |-> sph, props |-> SectionProps, may_throw |-> TRUE,
                                 also2d |-> [x |-> 4, z |-> 5, rel |-> Dec(1, -7), abs |-> Dec(1, -7)], rows |-> SMRows(f)] >>]
 
-Emit == ~done \/ (PrintT(<<"B", ToJson(SectionMovedB)>>) /\ PrintT(<<"B", ToJson(SectionB)>>) /\ PrintT(<<"J", ToJson(ThreadJob)>>) /\ PrintT(<<"B", ToJson(FiniteB)>>) /\ PrintT(<<"B", ToJson(PurityB)>>) /\ PrintT(<<"B", ToJson(CullB)>>)
+Emit == ~done \/ ((IF Len(feats) <= 3 THEN PrintT(<<"B", ToJson(PaintB)>>) ELSE TRUE) /\ PrintT(<<"B", ToJson(SectionMovedB)>>) /\ PrintT(<<"B", ToJson(SectionB)>>) /\ PrintT(<<"J", ToJson(ThreadJob)>>) /\ PrintT(<<"B", ToJson(FiniteB)>>) /\ PrintT(<<"B", ToJson(PurityB)>>) /\ PrintT(<<"B", ToJson(CullB)>>)
                   /\ PrintT(<<"B", ToJson(WrapperB)>>) /\ PrintT(<<"B", ToJson(MotionB)>>))
 
 (* the machine only ever appends well-formed features; the frames are rigid *)
